@@ -85,35 +85,39 @@ type Snapshot struct {
 
 // State is one symbolic execution path.
 type State struct {
-	e          *Engine
-	script     []Line
-	heap       map[string]string // heap array / ghost name -> current term
-	havocs     []havocRec
-	declared   map[string]bool
-	frames     []*Frame
-	path       []string
-	nonnil     map[string]bool
-	locks      map[string]string // lock identity -> "W" or "R"
-	iters      map[string]*Iter
-	ctxs       map[string]ctxRec // payload term -> WithValue record
-	funcs      map[string]*FuncV // func id term -> static function
-	notes      []string
-	depth      int
-	dead       bool
-	mapOwner   map[string]mapOwner
-	chanOwner  map[string]chanOwner
-	tokens     []buildTok
-	released   []buildTok
-	recvd      map[string]bool
-	borrowed   map[string]string
-	universals []string
-	instDone   map[string]bool
-	sawTokens  bool
-	inDetached bool
-	lockSnap   *Snapshot         // state right after the most recent lock acquisition
-	lockSnaps  []*Snapshot       // every lock acquisition of this call, in order
-	private    map[string]bool   // objects allocated by this call and not yet published
-	birth      map[string]string // reference term -> allocated-set term at the time the value became known
+	e           *Engine
+	script      []Line
+	heap        map[string]string // heap array / ghost name -> current term
+	havocs      []havocRec
+	declared    map[string]bool
+	frames      []*Frame
+	path        []string
+	nonnil      map[string]bool
+	locks       map[string]string // lock identity -> "W" or "R"
+	iters       map[string]*Iter
+	ctxs        map[string]ctxRec // payload term -> WithValue record
+	funcs       map[string]*FuncV // func id term -> static function
+	notes       []string
+	depth       int
+	dead        bool
+	mapOwner    map[string]mapOwner
+	chanOwner   map[string]chanOwner
+	tokens      []buildTok
+	released    []buildTok
+	recvd       map[string]bool
+	borrowed    map[string]string
+	universals  []string
+	frameAxioms []string // "objects allocated before the call are unchanged" facts, instantiated at loads
+	instDone    map[string]bool
+	instSeen    map[string]int
+	known       map[string]string
+	allocConst  map[string]bool
+	sawTokens   bool
+	inDetached  bool
+	lockSnap    *Snapshot         // state right after the most recent lock acquisition
+	lockSnaps   []*Snapshot       // every lock acquisition of this call, in order
+	private     map[string]bool   // objects allocated by this call and not yet published
+	birth       map[string]string // reference term -> allocated-set term at the time the value became known
 }
 
 type ctxRec struct {
@@ -125,7 +129,7 @@ type ctxRec struct {
 func (e *Engine) newState() *State {
 	return &State{e: e, heap: map[string]string{},
 		declared: map[string]bool{}, nonnil: map[string]bool{}, locks: map[string]string{}, iters: map[string]*Iter{},
-		ctxs: map[string]ctxRec{}, funcs: map[string]*FuncV{}, birth: map[string]string{}, private: map[string]bool{}, mapOwner: map[string]mapOwner{}, chanOwner: map[string]chanOwner{}, recvd: map[string]bool{}, borrowed: map[string]string{}, instDone: map[string]bool{}}
+		ctxs: map[string]ctxRec{}, funcs: map[string]*FuncV{}, birth: map[string]string{}, private: map[string]bool{}, mapOwner: map[string]mapOwner{}, chanOwner: map[string]chanOwner{}, recvd: map[string]bool{}, borrowed: map[string]string{}, instDone: map[string]bool{}, instSeen: map[string]int{}, known: map[string]string{}, allocConst: map[string]bool{}}
 }
 
 func (st *State) clone() *State {
@@ -162,7 +166,17 @@ func (st *State) clone() *State {
 		n.chanOwner[k] = v
 	}
 	n.borrowed = copyMap(st.borrowed)
+	n.instSeen = map[string]int{}
+	for k, v := range st.instSeen {
+		n.instSeen[k] = v
+	}
+	n.known = copyMap(st.known)
+	n.allocConst = map[string]bool{}
+	for k, v := range st.allocConst {
+		n.allocConst[k] = v
+	}
 	n.universals = append([]string{}, st.universals...)
+	n.frameAxioms = append([]string{}, st.frameAxioms...)
 	n.instDone = map[string]bool{}
 	for k, v := range st.instDone {
 		n.instDone[k] = v
@@ -236,9 +250,10 @@ func (st *State) assume(t string) {
 		return
 	}
 	st.script = append(st.script, Line{Kind: lAssert, Text: t})
-	if strings.Contains(t, "(forall ") && len(st.universals) < 60 {
+	if strings.Contains(t, "(forall ((|") && len(st.universals) < 60 {
+		// quantified facts coming from contracts (their bound variables are quoted spec names)
 		for _, u := range topUniversals(t) {
-			if len(instantiateAt(u, []string{"0"})) > 0 {
+			if strings.HasPrefix(u, "(forall ((|") && len(instantiateAt(u, []string{"0"})) > 0 {
 				st.universals = append(st.universals, u)
 			}
 		}
@@ -249,13 +264,17 @@ func (st *State) assume(t string) {
 // (frame facts "objects allocated before the call are unchanged", reference axioms) and a concrete index term.
 func (st *State) instantiateForArray(arr, term string) {
 	key := arr + "\x00" + term
-	if st.instDone[key] || strings.Contains(term, "$") || len(term) > 400 {
+	if strings.Contains(term, "$") || len(term) > 400 {
 		return
 	}
-	st.instDone[key] = true
+	from := st.instSeen[key] // frame axioms [0,from) were already instantiated at this term
+	if from >= len(st.frameAxioms) {
+		return
+	}
+	st.instSeen[key] = len(st.frameAxioms)
 	needle := "|" + sanitize(arr) + "@"
 	n := 0
-	for _, u := range st.universals {
+	for _, u := range st.frameAxioms[from:] {
 		if !strings.Contains(u, needle) {
 			continue
 		}
@@ -272,11 +291,15 @@ func (st *State) instantiateForArray(arr, term string) {
 // instantiateFor adds the instances of the universally quantified facts of this path at a ground term that the
 // code is about to use as a map key (a sound hint: quantifier instantiation by the engine instead of the solver).
 func (st *State) instantiateFor(term string) {
-	if st.instDone[term] || strings.Contains(term, "$") {
+	if strings.Contains(term, "$") {
 		return
 	}
-	st.instDone[term] = true
-	for _, u := range st.universals {
+	from := st.instSeen[term]
+	if from >= len(st.universals) {
+		return
+	}
+	st.instSeen[term] = len(st.universals)
+	for _, u := range st.universals[from:] {
 		for _, inst := range instantiateAt(u, []string{term}) {
 			st.script = append(st.script, Line{Kind: lAssert, Text: inst})
 		}
@@ -314,6 +337,10 @@ func (st *State) freshVal(prefix string, t types.Type) Val {
 		st.assumeRange(c, n)
 	}
 	st.assumeWellFormed(v)
+	if it, ok := t.Underlying().(*types.Interface); ok && it.NumMethods() > 0 && len(v.C) == 2 {
+		// static typing: a non-nil value of a non-empty interface type has a dynamic type that implements it
+		st.assume(implies(not(eq(v.C[0], "0")), st.implementsTerm(v.C[0], t)))
+	}
 	return v
 }
 
@@ -383,12 +410,20 @@ func (st *State) refAxiom(name, base, sort string, upto int) {
 	if !st.e.refArr[name] || name == allocName {
 		return
 	}
-	al := st.allocAsOf(upto)
+	// the base version of an array holds what it held right after the last havoc that matched it (or at entry)
+	at := 0
+	for i := upto - 1; i >= 0; i-- {
+		if matchPat(st.havocs[i].pat, name) {
+			at = i + 1
+			break
+		}
+	}
+	al := st.allocAsOf(at)
 	switch sort {
 	case "(Array Int Int)":
-		st.assume(fmt.Sprintf("(forall ((x Int)) (! (or (<= (select %s x) 1000) (select %s (select %s x))) :pattern ((select %s x))))", base, al, base, base))
+		st.assume(fmt.Sprintf("(forall ((x Int)) (! (< (select %s x) %s) :pattern ((select %s x))))", base, al, base))
 	case "(Array Int (Array Int Int))":
-		st.assume(fmt.Sprintf("(forall ((m Int) (x Int)) (! (or (<= (select (select %s m) x) 1000) (select %s (select (select %s m) x))) :pattern ((select (select %s m) x))))", base, al, base, base))
+		st.assume(fmt.Sprintf("(forall ((m Int) (x Int)) (! (< (select (select %s m) x) %s) :pattern ((select (select %s m) x))))", base, al, base))
 	}
 }
 
@@ -400,7 +435,7 @@ func (st *State) allocAsOf(upto int) string {
 		}
 	}
 	b := q(allocName + "@0")
-	st.declBase(b, "(Array Int Bool)", "")
+	st.declBase(b, "Int", st.e.ghostInit[allocName])
 	return b
 }
 
@@ -465,6 +500,19 @@ func (st *State) logAxiom(name, base, sort string, upto int) {
 }
 
 func (st *State) setArr(name, sort, term string) {
+	st.setArrRaw(name, sort, term, true)
+}
+
+func (st *State) setArrRaw(name, sort, term string, invalidate bool) {
+	if invalidate && strings.HasPrefix(name, "H|") {
+		// any direct update of a heap array invalidates the remembered values (storePtr re-notes its own)
+		prefix := name + "\x00"
+		for k := range st.known {
+			if strings.HasPrefix(k, prefix) {
+				delete(st.known, k)
+			}
+		}
+	}
 	st.e.counter++
 	nm := q(fmt.Sprintf("%s@%d", name, st.e.counter))
 	st.decl(fmt.Sprintf("(define-fun %s () %s %s)", nm, sort, term))
@@ -473,7 +521,7 @@ func (st *State) setArr(name, sort, term string) {
 }
 
 // havoc forgets everything about the arrays matching the pattern.
-func (st *State) alloc() string { return st.arr(allocName, "(Array Int Bool)") }
+func (st *State) alloc() string { return st.arr(allocName, "Int") }
 
 func (st *State) havoc(pat string) {
 	st.e.counter++
@@ -488,6 +536,11 @@ func (st *State) havoc(pat string) {
 	for name := range st.heap {
 		if matchPat(pat, name) {
 			delete(st.heap, name)
+		}
+	}
+	for k := range st.known {
+		if i := strings.Index(k, "\x00"); i > 0 && matchPat(pat, k[:i]) {
+			delete(st.known, k)
 		}
 	}
 }
